@@ -765,7 +765,9 @@ def replay_x64_core(rec, work):
             fake = "fakefn_rel F 0 %d 777" % disp
         else:
             fake = "fakefn F far 777"
-        scn = "func 0 %x %d 11\n%s\nwatch 0\nnew\nraw 0 F\nflushed 0\ncall 0 777\ncallregs 0 777\ndrop\nflushed 0\nbytes 0\ncall 0 11\nmaps\n" % (f, off, fake)
+        echo = "fakeecho E %s" % ("far" if abs(disp) > 0x7fffffff else "near")
+        scn = ("func 0 %x %d 11\n%s\n%s\nwatch 0\nnew\nraw 0 F\nflushed 0\ncall 0 777\ncallregs 0 777\ndrop\nflushed 0\nbytes 0\ncall 0 11\nmaps\n"
+               "new\nraw 0 E\ncallstack 0 305419896\ndrop\ncall 0 11\n") % (f, off, fake, echo)
     return _native(work, scn, rec["harness"])
 
 
